@@ -43,7 +43,8 @@ RULE = ("explicit-state BFS per configuration (data type dna/standard/continuous
         "size x append choice; fill_taxa; remove_/discard_/keep_sequences with every taxon subset; "
         "export_character_indices with every index subset; export_character_subset with every recorded subset by label "
         "and by object; concatenate of lists containing the current matrix) is applied to a fresh rebuild, up to the "
-        "depth and column bounds; a case = one transition (state, operation, argument); non-trivial = the namespace has "
+        "depth and column bounds; for DNA additionally concatenate_from_streams over every list of <= 3 pool matrices "
+        "written as FASTA / PHYLIP text; a case = one transition (state, operation, argument); non-trivial = the namespace has "
         ">= 2 taxa and the matrices involved hold at least one cell")
 ASSUMPTIONS = [
     "a matrix's state for these operations is its label, its row store (taxon -> cell values, compared by state symbol / "
@@ -474,8 +475,10 @@ def index_subsets(L, b):
 # operation alphabet
 
 def is_hang_prone(cfg, state, op, b):
-    """Scheduling hint only (and the input classes bounded by `hang_prone_depth`): the two argument
-    patterns that are known not to terminate.  The verdict itself always comes from the line budget."""
+    """Scheduling hint (such calls go straight to the line budget instead of through the wall-clock
+    pre-filter) and the two input classes bounded by `self_extension_depth` / `name_collision_depth`:
+    the argument patterns that are known not to terminate.  The verdict itself always comes from the
+    line budget, never from this prediction."""
     if op[0] == "bin":
         return op[2] == "self" and op[1] in ("extend", "extend_new", "extend_matrix") and ncells(state[1]) > 0
     if op[0] == "concat":
@@ -904,6 +907,82 @@ def row_feature(k, before, got, want):
 
 
 # ---------------------------------------------------------------------------
+# concatenate_from_streams (E1 layer, DNA): the same lists, written as FASTA / PHYLIP text
+
+STREAM_MEMBERS = (0, 1, 2, 3, 5, 6, 8)      # pool members that can be written as text (>= 1 row, no empty rows)
+
+
+def as_text(rows, schema):
+    present = [(TAXA[i], "".join(r)) for i, r in enumerate(rows) if r is not None]
+    if schema == "fasta":
+        return "".join(">%s\n%s\n" % (t, s) for t, s in present)
+    return " %d %d\n" % (len(present), len(present[0][1])) + "".join("%s  %s\n" % (t, s) for t, s in present)
+
+
+def stream_lists(cfg, b):
+    P = cached_pool(cfg, b)
+    members = [j for j in STREAM_MEMBERS if nrows(P[j][1]) > 0 and all(r is None or len(r) > 0 for r in P[j][1])]
+    out = []
+    for k in (1, 2, 3):
+        for lst in itertools.product(members, repeat=k):
+            out.append(("fasta", lst))
+            if all(is_full(P[j][1]) and is_rect(P[j][1]) for j in lst):
+                out.append(("phylip", lst))
+    return out
+
+
+def check_streams(cfg, schema, lst, ctx, b):
+    import io
+    cfg = (cfg[0], int(cfg[1]))
+    lst = tup(lst)
+    dtype, n = cfg
+    P = cached_pool(cfg, b)
+    py = "%s.concatenate_from_streams([%s], %r)" % (CLS[dtype].__name__, ", ".join("text(P%d)" % j for j in lst), schema)
+    case = {"kind": "streams", "cfg": cfg, "schema": schema, "list": lst, "py": py,
+            "texts": [as_text(P[j][1], schema) for j in lst]}
+
+    def V(sig, msg):
+        ctx.violation(sig, "%s   [%s %d taxa; call: %s; texts %r]" % (msg, dtype, n, py, case["texts"]), case)
+
+    def make():
+        streams = [io.StringIO(t) for t in case["texts"]]
+        return None, (lambda: CLS[dtype].concatenate_from_streams(streams, schema))
+
+    st, val, _w, nlines = execute(make, False)
+    if st == "hang":
+        ctx.count("outcome:hang")
+        V("concatenate_from_streams|hang", "does not terminate: more than %d lines executed, last at %s" % (LINE_BUDGET, val))
+        return
+    valid = all(is_full(P[j][1]) and is_rect(P[j][1]) for j in lst)
+    if st == "exc":
+        ctx.count("outcome:%s" % type(val).__name__)
+        if valid:
+            V("concatenate_from_streams|exception:%s" % type(val).__name__, "raised %r on matrices that all hold every taxon" % (val,))
+        return
+    ctx.count("outcome:returned")
+    if not valid:
+        ctx.count("concatenate_outside_domain_returned")
+        return
+    res = val
+    if type(res) is not CLS[dtype]:
+        V("concatenate_from_streams|not-a-new-matrix-of-the-same-type", "returned %r" % (res,))
+        return
+    taxa = list(res.taxon_namespace._taxa)
+    if [t._label for t in taxa] != list(TAXA[:n]):
+        V("concatenate_from_streams|wrong-namespace", "taxa of the result: %s" % ([t._label for t in taxa],))
+        return
+    rsnap, probs = snapshot(res, taxa)
+    plan = concat_plan([(0, None, P[j][1]) for j in lst])
+    if probs or rsnap[1] != plan["rows"]:
+        V("concatenate_from_streams|%s" % ("inconsistent-row-store" if probs else row_feature("concat", None, rsnap[1], plan["rows"])),
+          "result rows %s, reference %s" % (probs or show_rows(rsnap[1]), show_rows(plan["rows"])))
+        return
+    if sorted(x[1] for x in rsnap[2]) != sorted(plan["ranges"]):
+        V("concatenate_from_streams|wrong-subsets", "recorded subsets %s, the sources' column ranges are %s" % (
+            [(x[0], list(x[1])) for x in rsnap[2]], [list(r) for r in plan["ranges"]]))
+
+
+# ---------------------------------------------------------------------------
 # BFS levels
 
 def nontrivial(cfg, state):
@@ -929,36 +1008,44 @@ def run_starts(chunk, ctx):
             ctx.count("pool_matrices")
             out.append((snap, ("start", j)))
         return out
+    if chunk["part"] == "streams":
+        for schema, lst in chunk["lists"]:
+            ctx.case((cfg, "E1s", schema, tup(lst)), nontrivial=cfg[1] >= 2)
+            ctx.count("transitions")
+            ctx.count("calls:concatenate_from_streams")
+            check_streams(cfg, schema, lst, ctx, b)
+        return out
     none_state = (None, None, ())
     for lst in chunk["lists"]:
         op = ("concat", tup(lst))
         ctx.case((cfg, "E1", op), nontrivial=cfg[1] >= 2)
         ctx.count("transitions")
+        ctx.count("calls:concatenate")
         ctx.count("concatenate_lists_over_the_pool")
         succ = check_transition(cfg, none_state, op, ctx, b, measure=True)
         if succ is not None:
             out.append((succ, op))
-        if len(ctx.samples) < 2 and len(lst) == 3 and succ is not None and cfg[1] == 3:
-            ctx.sample({"layer": "E1 concatenate", "config": "%s, %d taxa" % cfg, "call": opstr(cfg, op),
-                        "result": pretty(succ) if succ is not None else "(exception / violation: no successor)"}, 2)
+            if len(lst) == 3 and cfg[1] == 3:
+                ctx.sample({"layer": "E1 concatenate", "config": "%s, %d taxa" % cfg, "call": opstr(cfg, op),
+                            "pool": {"P%d" % j: pretty((cached_pool(cfg, b)[j][0], cached_pool(cfg, b)[j][1], ()))
+                                     for j in lst if j != "foreign"},
+                            "result": pretty(succ)}, 1)
     return out
 
 
-def _expand_state(cfg, state, depth, expand, b, ctx, out, seen_local, pidx):
-    ctx.case((cfg, "s", state), nontrivial=nontrivial(cfg, state))
-    ctx.maximum("columns", maxlen(state[1]))
-    if not is_rect(state[1]):
-        ctx.count("states_ragged")
-    if not is_full(state[1]):
-        ctx.count("states_with_taxa_missing")
-    if state[2]:
-        ctx.count("states_with_character_subsets")
-    if not expand:
-        return
+def digest(state):
+    """what the explorer needs to know about a state of the last level (never expanded)"""
+    rows = state[1]
+    return (hash(state), maxlen(rows), int(not is_rect(rows)), int(not is_full(rows)), int(bool(state[2])),
+            int(ncells(rows) > 0))
+
+
+def _expand_state(cfg, state, depth, last, b, ctx, out, seen_local, pidx):
     ops = enabled_ops(cfg, state, depth, b)
     ctx.maximum("ops_enabled_in_one_state", len(ops))
+    nt = nontrivial(cfg, state)
     for op in ops:
-        ctx.case((cfg, "t", state, op), nontrivial=nontrivial(cfg, state))
+        ctx.case((cfg, "t", state, op), nontrivial=nt)
         ctx.count("transitions")
         ctx.count("calls:" + site(op))
         succ = check_transition(cfg, state, op, ctx, b, measure=(depth == 0))
@@ -967,9 +1054,10 @@ def _expand_state(cfg, state, depth, expand, b, ctx, out, seen_local, pidx):
             continue
         if succ == state:
             ctx.count("transitions_self_loop")
+            continue
         if succ not in seen_local:
             seen_local.add(succ)
-            out.append((succ, pidx, op))
+            out.append(digest(succ) if last else (succ, pidx, op))
 
 
 def run_level(chunk, ctx):
@@ -978,8 +1066,8 @@ def run_level(chunk, ctx):
     out = []
     seen_local = set()
     for pidx, state in enumerate(chunk["states"]):
-        _expand_state(cfg, tup(state), chunk["depth"], chunk["expand"], b, ctx, out, seen_local, pidx)
-    if chunk["expand"] and chunk["states"]:
+        _expand_state(cfg, tup(state), chunk["depth"], chunk["last"], b, ctx, out, seen_local, pidx)
+    if chunk["states"] and cfg[1] >= 2:
         from mc.runner import Ctx
         st = tup(chunk["states"][len(chunk["states"]) // 2])
         ops = enabled_ops(cfg, st, chunk["depth"], b)
@@ -999,79 +1087,101 @@ def configs(b):
     return [(d, n) for d in b["data_types"] for n in b["namespace_sizes"]]
 
 
+def _count_state(ctx, cfg, depth, d):
+    h, cols, ragged, missing, subs, cells = d
+    ctx.case((cfg, "s", h), nontrivial=cfg[1] >= 2 and bool(cells))
+    ctx.count("states")
+    ctx.count("states_at_depth_%d" % depth)
+    ctx.maximum("columns", cols)
+    if ragged:
+        ctx.count("states_ragged")
+    if missing:
+        ctx.count("states_with_taxa_missing")
+    if subs:
+        ctx.count("states_with_character_subsets")
+
+
 def explore(tier, runner):
     b = bounds(tier)
     ctx = runner.ctx
     cfgs = configs(b)
-    # ---- depth 0 (pool) and the E1 concatenate layer
+    # ---- depth 0 (pool) and the E1 concatenate layers
     chunks = []
     for cfg in cfgs:
         chunks.append({"cfg": cfg, "tier": tier, "part": "pool"})
         lists = concat_lists_pool_only(cfg, b, len(pool(cfg, b)))
         for i in range(0, len(lists), 40):
             chunks.append({"cfg": cfg, "tier": tier, "part": "concat", "lists": lists[i:i + 40]})
+        if cfg[0] == "dna":
+            lists = stream_lists(cfg, b)
+            for i in range(0, len(lists), 60):
+                chunks.append({"cfg": cfg, "tier": tier, "part": "streams", "lists": lists[i:i + 60]})
     res = runner.map("run_starts", chunks)
-    parent = {}
-    level0 = {cfg: [] for cfg in cfgs}
-    level1 = {cfg: [] for cfg in cfgs}
-    for ch, r in zip(chunks, res):
-        cfg = tuple(ch["cfg"])
-        if ch["part"] != "pool":
-            continue
-        for s, op in r:
-            if (cfg, s) not in parent:
-                parent[(cfg, s)] = (None, op)
-                level0[cfg].append(s)
-    for ch, r in zip(chunks, res):
-        cfg = tuple(ch["cfg"])
-        if ch["part"] == "pool":
-            continue
-        for s, op in r:
-            if (cfg, s) not in parent:
-                parent[(cfg, s)] = (None, op)
-                level1[cfg].append(s)
-    ctx.count("start_states", sum(len(v) for v in level0.values()) + sum(len(v) for v in level1.values()))
-    frontier = {cfg: sorted(level0[cfg], key=repr) for cfg in cfgs}
-    pending1 = {cfg: sorted(level1[cfg], key=repr) for cfg in cfgs}
+    parent = {}                       # (cfg, state) -> (predecessor state | None, op)    [expanded levels only]
+    seenh = {cfg: set() for cfg in cfgs}
+    level = {0: {cfg: [] for cfg in cfgs}, 1: {cfg: [] for cfg in cfgs}}
+    for part, d in (("pool", 0), ("concat", 1)):
+        for ch, r in zip(chunks, res):
+            cfg = tuple(ch["cfg"])
+            if ch["part"] != part:
+                continue
+            for s, op in r:
+                if (cfg, s) not in parent:
+                    parent[(cfg, s)] = (None, op)
+                    seenh[cfg].add(hash(s))
+                    level[d][cfg].append(s)
+    ctx.count("start_states", sum(len(v) for d in (0, 1) for v in level[d].values()))
+    frontier = {cfg: sorted(level[0][cfg], key=repr) for cfg in cfgs}
+    pending1 = {cfg: sorted(level[1][cfg], key=repr) for cfg in cfgs}
+    for cfg in cfgs:
+        for s in frontier[cfg]:
+            _count_state(ctx, cfg, 0, digest(s))
     depth = 0
-    maxd = max(depth_of(cfg, b) for cfg in cfgs)
     completed = {}
-    while depth <= maxd and any(frontier.values()):
+    while any(frontier.values()):
         chunks = []
         for cfg in cfgs:
             D = depth_of(cfg, b)
-            if depth > D or not frontier[cfg]:
+            if depth >= D or not frontier[cfg]:
                 continue
-            expand = depth < D
-            n = b["chunk_states"] if expand else b["chunk_states"] * 50
-            if depth == 0:
-                n = 1
+            n = 1 if depth == 0 else b["chunk_states"]
             for i in range(0, len(frontier[cfg]), n):
-                chunks.append({"cfg": cfg, "states": frontier[cfg][i:i + n], "expand": expand, "tier": tier, "depth": depth})
-            ctx.count("states_at_depth_%d" % depth, len(frontier[cfg]))
-            ctx.count("states", len(frontier[cfg]))
-            completed[cfg] = depth
-        ctx.maximum("depth_completed", depth)
+                chunks.append({"cfg": cfg, "states": frontier[cfg][i:i + n], "last": depth == D - 1, "tier": tier, "depth": depth})
+            completed[cfg] = depth + 1
+        if not chunks:
+            break
         results = runner.map("run_level", chunks)
         new = {cfg: [] for cfg in cfgs}
         if depth == 0:
-            for cfg in cfgs:            # concatenations of pool matrices are histories of one operation
-                new[cfg].extend(pending1[cfg])
+            for cfg in cfgs:            # a concatenation of pool matrices is a history of one operation
+                for s in pending1[cfg]:
+                    _count_state(ctx, cfg, 1, digest(s))
+                if depth_of(cfg, b) > 1:
+                    new[cfg].extend(pending1[cfg])
         for ch, r in zip(chunks, results):
             cfg = tuple(ch["cfg"])
+            if ch["last"]:
+                for d in r:
+                    if d[0] not in seenh[cfg]:
+                        seenh[cfg].add(d[0])
+                        _count_state(ctx, cfg, depth + 1, d)
+                continue
             for succ, pidx, op in r:
                 if (cfg, succ) not in parent:
                     parent[(cfg, succ)] = (tup(ch["states"][pidx]), op)
+                    seenh[cfg].add(hash(succ))
+                    _count_state(ctx, cfg, depth + 1, digest(succ))
                     new[cfg].append(succ)
         frontier = {cfg: sorted(new[cfg], key=repr) for cfg in cfgs}
         depth += 1
+        ctx.maximum("depth_completed", depth)
     for sig, ent in ctx.viol.items():
         for v in ent["first"]:
             c = v["case"]
             if isinstance(c, dict) and c.get("kind") == "trans" and c["state"][1] is not None:
                 c["history"] = history(parent, tuple(c["cfg"]), tup(c["state"])) + [c["py"]]
-    runner.notes.append("BFS completed per configuration to depth %s" % (
-        ", ".join("%s/%d:%d" % (c[0], c[1], d) for c, d in sorted(completed.items())),))
+    runner.notes.append("BFS completed per configuration (data type/taxa: depth) %s; states of the last level are "
+                        "counted, not expanded" % (", ".join("%s/%d:%d" % (c[0], c[1], d) for c, d in sorted(completed.items())),))
 
 
 def history(parent, cfg, state):
@@ -1090,10 +1200,12 @@ def history(parent, cfg, state):
 
 def replay(case, ctx):
     k = case.get("kind")
+    b = bounds("thorough")
     if k == "trans":
         cfg = (case["cfg"][0], int(case["cfg"][1]))
-        b = bounds(case.get("tier", "thorough"))
         check_transition(cfg, tup(case["state"]), tup(case["op"]), ctx, b)
+    elif k == "streams":
+        check_streams(tuple(case["cfg"]), case["schema"], tup(case["list"]), ctx, b)
     elif k == "pool":
         cfg = (case["cfg"][0], int(case["cfg"][1]))
         run_starts({"cfg": cfg, "tier": "thorough", "part": "pool"}, ctx)
